@@ -648,16 +648,16 @@ func TestVerifMessageID(t *testing.T) {
 		}
 	}
 	// small histories, logged in full
-	for i, n := 0, env.Pick(60, 500); i < n; i++ {
+	for i, n := 0, env.Pick(60, 300); i < n; i++ {
 		mode := []string{"mono", "any"}[i%2]
 		cfg := midHistCfg{mode: mode, procs: []int{1, 2, 4, ncpu}[rng.Intn(4)], g: 2 + rng.Intn(7), k: 8 + rng.Intn(24),
 			faults: 1 + rng.Intn(2), setPct: 10 + rng.Intn(20)}
 		runOne(cfg, 400)
 	}
 	// long histories, checked in full by histCheck, sampled for TLC
-	for i, n := 0, env.Pick(24, 160); i < n; i++ {
+	for i, n := 0, env.Pick(24, 72); i < n; i++ {
 		mode := []string{"any", "mono", "any"}[i%3]
-		cfg := midHistCfg{mode: mode, procs: []int{1, 2, 4, ncpu, 4 * ncpu}[rng.Intn(5)], g: 4 + rng.Intn(29), k: env.Pick(4000, 8000),
+		cfg := midHistCfg{mode: mode, procs: []int{1, 2, 4, ncpu, 4 * ncpu}[rng.Intn(5)], g: 4 + rng.Intn(29), k: 4000,
 			setPct: 1 + rng.Intn(4)}
 		if i%6 == 0 {
 			cfg.saw = 1 + rng.Intn(2) // sawtooth clock
